@@ -111,6 +111,8 @@ impl ZoneMeta {
         // Serialize zones to buffer then write
         let serialized = bincode::serialize(zones)?;
         file.write_all(&serialized).await?;
+        // tokio files report a failed write on the next operation: flush first
+        file.flush().await?;
         file.sync_all().await?;
 
         if tracing::enabled!(tracing::Level::DEBUG) {
